@@ -347,6 +347,19 @@ def map_events(args) -> list:
                         mm = z.map_local(zdt.local_date_time)
                         if inst not in {x.to_instant() for x in ([mm.first(), mm.last()] if mm.count else [])}:
                             back_ok = False
+                        # ... and so does the zoned value reached from it by a duration (across the transition or not): it is the
+                        # rendering of its own instant, and its local time maps back to that instant
+                        for dlt2 in (Duration.from_nanoseconds(gap), Duration.from_nanoseconds(-gap), Duration.from_hours(rnd.choice([1, -1, 25, -25]))):
+                            try:
+                                moved = zdt + dlt2
+                                fresh_r = (inst + dlt2).in_zone(z, ldt.calendar)
+                            except (OverflowError, ValueError):
+                                continue
+                            if moved.local_date_time != fresh_r.local_date_time or moved.offset != fresh_r.offset or moved.to_instant() != inst + dlt2:
+                                back_ok = False
+                            mm2 = z.map_local(moved.local_date_time)
+                            if moved.to_instant() not in {x.to_instant() for x in ([mm2.first(), mm2.last()] if mm2.count else [])}:
+                                back_ok = False
                 ev["back_ok"] = back_ok
                 evs.append(ev)
     return evs
